@@ -39,7 +39,9 @@ MonIn(x) == IF MonDir > 0 THEN MonFirst <= x /\ x <= last ELSE last <= x /\ x <=
 \* leaves it open), otherwise LAST is reached within less than a day
 TodLast == IF inc > 0 THEN (IF last > first THEN last ELSE last + DAY)
            ELSE (IF last < first THEN last ELSE last - DAY)
-TodLin(j) == first + j * inc
+\* --compute-from-last: anchored so that the run ends on LAST
+TodAnchor == IF ~cfl \/ inc = 0 THEN first ELSE TodLast - (Abs(TodLast - first) \div Abs(inc)) * inc
+TodLin(j) == TodAnchor + j * inc
 TodIn(x) == IF inc > 0 THEN x <= TodLast ELSE x >= TodLast
 
 Elem(j) == CASE kind = "lin" -> LinElem(j) [] kind = "mon" -> MonElem(j) [] kind = "tod" -> TodLin(j) % DAY
@@ -65,7 +67,7 @@ CONSTANTS LMAX
 InitLin == /\ kind = "lin" /\ first \in 0..LMAX /\ last \in 0..LMAX /\ inc \in -3..3
            /\ skip \in {{}, {6, 7}, {1}} /\ cfl \in BOOLEAN /\ wd0 \in {1, 5}
 InitTod == /\ kind = "tod" /\ first \in 0..(DAY - 1) /\ last \in 0..(DAY - 1) /\ inc \in -4..4
-           /\ skip = {} /\ cfl = FALSE /\ wd0 = 1
+           /\ skip = {} /\ cfl \in BOOLEAN /\ wd0 = 1
 InitMon == /\ kind = "mon" /\ first \in {<<2011, 11, 30>>, <<2012, 1, 31>>, <<2012, 2, 29>>}
            /\ inc \in {<<1, 0>>, <<-1, 0>>, <<12, 0>>, <<1, 1>>, <<0, 0>>, <<3, 0>>}
            /\ last \in {LdnOf(2012, 6, 30), LdnOf(2011, 6, 1), LdnOf(2016, 3, 1)}
@@ -79,7 +81,8 @@ Monotone == kind # "tod" => \A i \in 1..(Len(outs) - 1) : Sgn(outs[i + 1] - outs
 NoSkipped == kind # "tod" => \A i \in 1..Len(outs) : skip = {} \/ WdOf(outs[i]) \notin skip
 Within == kind = "lin" => \A i \in 1..Len(outs) : LinIn(outs[i])
 StartsAtFirst == (kind = "lin" /\ ~cfl /\ Len(outs) > 0 /\ skip = {}) => outs[1] = first
-EndsAtLast == (kind = "lin" /\ cfl /\ done /\ Len(outs) > 0 /\ skip = {}) => outs[Len(outs)] = last
+EndsAtLast == /\ (kind = "lin" /\ cfl /\ done /\ Len(outs) > 0 /\ skip = {}) => outs[Len(outs)] = last
+              /\ (kind = "tod" /\ cfl /\ done /\ Len(outs) > 0) => outs[Len(outs)] = last
 TodBound == kind = "tod" => Len(outs) <= DAY + 1
 \* liveness: every run stops
 Terminates == <>done
